@@ -92,6 +92,13 @@ def pCombine (s : String) : P ((List Rat → Rat) × Bool × Bool) :=
   | ["negwsum", w] => do
       let ws ← pList pRat w
       pure (invNWeight ws, false, true)
+  | ["negminsum", t] => do
+      let tau ← pRat t
+      pure (fun p => -(rsum (p.map (fun v => min v tau))), false, true)                -- flat above tau
+  | ["countbelow", t] => do
+      let tau ← pRat t
+      pure (fun p => ((p.countP (fun v => decide (v ≤ tau)) : Nat) : Rat), false, true)   -- step function
+  | ["negposw"] => pure (fun p => -(rsum (p.zipIdx.map (fun tk => tk.1 / ((tk.2 + 1 : Nat) : Rat)))), false, true)  -- −Σ p_i/(i+1): not symmetric
   | ["possum"] => pure (fun p => rsum p, false, true)             -- invalid: increasing
   | _ => fail s!"combine '{s}'"
 
